@@ -214,13 +214,15 @@ class Outcome:
         os.makedirs(ev_dir, exist_ok=True)
         replay_paths = []
         seen_sig = set()
+        per_clause: dict = {}
         for vio in self.violations:
             sig = (vio["clause"], sha(vio["job"]))
             if sig in seen_sig:
                 continue
             seen_sig.add(sig)
-            if len(replay_paths) >= 25:
-                break
+            per_clause[vio["clause"]] = per_clause.get(vio["clause"], 0) + 1
+            if per_clause[vio["clause"]] > 8 or len(replay_paths) >= 40:
+                continue
             d = os.path.join(ROOT, "replays", self.prop)
             os.makedirs(d, exist_ok=True)
             p = os.path.join(d, sha(vio["job"]) + ".json")
